@@ -8,7 +8,9 @@ package main
 //     (checked on the text of peg.peg: literal matched + Go string literal in the action);
 //  3. the stack discipline of peg.peg: with the effects (operands needed, operands pushed) that the contracts of part 1
 //     state for the builder methods, every derivation of a rule X changes the operand stack by exactly d_X and never
-//     reaches below the level at which X was entered.
+//     reaches below the level at which X was entered;
+//  4. denotation (denote.go, denotestatic.go): every construct of the documented syntax reaches the builder calls that give
+//     it its documented meaning.
 //
 // Parts 2 and 3 are decided by this file itself (constant evaluation / a small abstract interpretation of the rule tree);
 // each check is recorded as an obligation of kind "lemma" with backend "text-analysis".
@@ -44,6 +46,9 @@ func runC10(r *Run) error {
 	r.verifyFuncs(u, builderKeys)
 	r.Obls = append(r.Obls, escapeTable(filepath.Join(repoDir, "peg.peg"))...)
 	r.Obls = append(r.Obls, stackDiscipline(u)...)
+	r.Obls = append(r.Obls, denotation(u)...)
+	r.Assume["peg.peg (denote.*): the interpreter of denote.go implements the PEG semantics of DESIGN.md section 4 and hands every action the text of the last completed capture (properties C01/C04 for peg.peg.go; replayed against the real front end by denote.model)"] = true
+	r.Assume["peg.peg (denote.*): the meaning of a construct is the tree written by denote() from docs/peg-file-syntax.md and the property text; sequence and ordered choice are compared modulo associativity; lower/upper are strings.ToLower/ToUpper (B-A1)"] = true
 	r.Assume["peg.peg: actions inside a lookahead (& !) are never executed (the generated parser discards the tokens of a lookahead)"] = true
 	r.Assume["peg.peg: the rule tree of peg.peg is obtained with the front end under verification itself (treedump)"] = true
 	return nil
